@@ -179,19 +179,25 @@ var (
 	wdStart   atomic.Int64 // unix nanos of the running case start, 0 = idle
 	wdOnHang  atomic.Pointer[func()]
 	wdTimeout = 30 * time.Second
+	wdFree    atomic.Bool // the running case is free-running (Guard)
 )
 
 func watchdog() {
 	for {
 		time.Sleep(500 * time.Millisecond)
 		st := wdStart.Load()
-		if st != 0 && time.Since(time.Unix(0, st)) > wdTimeout {
+		limit := wdTimeout
+		if wdFree.Load() && limit < 120*time.Second {
+			// real parallelism on a possibly overloaded machine: a generous wall-clock limit
+			limit = 120 * time.Second
+		}
+		if st != 0 && time.Since(time.Unix(0, st)) > limit {
 			if f := wdOnHang.Load(); f != nil {
 				(*f)()
 			}
 			buf := make([]byte, 1<<20)
 			n := runtime.Stack(buf, true)
-			fmt.Fprintf(os.Stderr, "\nHANG: case did not reach quiescence within %v\n%s\n", wdTimeout, buf[:n])
+			fmt.Fprintf(os.Stderr, "\nHANG: case did not reach quiescence within %v\n%s\n", limit, buf[:n])
 			os.Exit(3)
 		}
 	}
@@ -200,8 +206,9 @@ func watchdog() {
 // Guard runs f (a free-running case, outside any bubble) under the hang watchdog.
 func Guard(f func()) {
 	wdOnce.Do(func() { go watchdog() })
+	wdFree.Store(true)
 	wdStart.Store(time.Now().UnixNano())
-	defer wdStart.Store(0)
+	defer func() { wdStart.Store(0); wdFree.Store(false) }()
 	f()
 }
 
